@@ -4,6 +4,7 @@
 import collections
 import hashlib
 import json
+import re
 import random
 from fractions import Fraction
 
@@ -272,6 +273,32 @@ def expected_pair(pub, today, td, cur, fx):
     return ("error",)                    # other currencies must carry their own rate
 
 
+def cell_problem(cell, val, cur, rate):
+    """None, or what is wrong with a rendered money cell for `val` of currency `cur` at `rate`"""
+    lines = cell.split("\n")
+    m = re.fullmatch(r"\$(-?[0-9]+(?:\.[0-9]+)?)", lines[0])
+    if not m:
+        return "not a dollar figure"
+    cad = Fraction(m.group(1))
+    if cur == "CAD":
+        if len(lines) != 1:
+            return "a CAD figure with a foreign-currency line"
+        return None if cad == val else "expected $%s" % val
+    if len(lines) != 2:
+        return "no foreign-currency line"
+    m2 = re.fullmatch(r"\((-?[0-9]+(?:\.[0-9]+)?) (\S+)\)", lines[1])
+    if not m2:
+        return "foreign-currency line not understood"
+    if m2.group(2).upper() != cur:
+        return "currency shown is %s" % m2.group(2)
+    if Fraction(m2.group(1)) != val:
+        return "foreign value shown is %s, expected %s" % (m2.group(1), val)
+    want = val * rate
+    if abs(cad - want) > Fraction(1, 10 ** 20) * max(Fraction(1), abs(want)):
+        return "CAD value %s, expected %s" % (m.group(1), float(want))
+    return None
+
+
 def check_rows(res, ctx, batch):
     st = ctx["stats"]
     hc = [{"truth": [{"day": o["day"], "json": o["json"]} for o in truth], "today": today, "avail": avail,
@@ -350,6 +377,28 @@ def check_rows(res, ctx, batch):
                                   {"input": h, "row": k, "expected_spec": str((etx, ecm)), "actual_impl": str(got),
                                    "replay_mode": "rows", "replay_case": [truth, today, avail, rows]})
                     break
+            # the Amount / Amt/Share / Commission cells of the report: converted with the rate of their OWN
+            # currency ("$<CAD value>" and, for a foreign currency, "(<value> <CUR>)" underneath)
+            for k, (r, (tx, cm)) in enumerate(zip(rows, exp)):
+                cells = (io["secs"].get("S%d" % k) or {}).get("cells")
+                if not isinstance(cells, list) or len(cells) != 1:
+                    continue
+                etx = tx[1] if tx[0] == "rate" else Fraction(1)
+                ecm = cm[1] if cm[0] == "rate" else etx
+                tcur = (r["cur"] or "CAD").upper()
+                ccur = (r["ccur"] or tcur).upper()
+                for name, cell, val, cur, rate in (("Amount", cells[0][0], Fraction(25), tcur, etx),
+                                                   ("Amt/Share", cells[0][1], Fraction(5, 2), tcur, etx),
+                                                   ("Commission", cells[0][2], Fraction(1), ccur, ecm)):
+                    st["cells-checked"] += 1
+                    bad = cell_problem(cell, val, cur, rate)
+                    if bad:
+                        res.violation("failing-input",
+                                      "row %d (trade date %s): the %s cell shows %r: %s (currency %s, rate by the decision rules %s)" % (
+                                          k, R.iso(r["td"]), name, cell, bad, cur, rate),
+                                      {"input": h, "row": k, "cell": name, "actual_impl": cell,
+                                       "replay_mode": "rows", "replay_case": [truth, today, avail, rows]})
+                        break
             key = ("rows", hashlib.sha1((h["csv"] + json.dumps(h["truth"])).encode()).hexdigest())
             if key not in ctx["seen"] and any(
                     c and c.upper() == "USD" and f is None
